@@ -329,16 +329,19 @@ def _e2e_case(res, case):
         return None
     rl, depth = rng.choice([60, 100, 150]), 20
     phase = rng.random() < 0.5
+    # the realigner switched off: catalogued indels are matched through their equivalent placements instead
+    fast = rng.random() < 0.3
     outs, subs = [], []
     from . import c01
 
     desc = {"db": dba.label, "strands": [dba.gene.strand, dbb.gene.strand], "copies": [list(c[:2]) for c in copies],
-            "rl": rl, "phase": phase}
+            "rl": rl, "phase": phase, "realigner_off": fast}
     for db in (dba, dbb):
         sub = Res()
         try:
             with util.time_limit(120):
-                c01.check_sample(sub, db, copies, rl, depth, dict(desc, build=db.genome), {"phase": phase}, truth=True)
+                c01.check_sample(sub, db, copies, rl, depth, dict(desc, build=db.genome),
+                                 dict({"phase": phase}, **({"indelpost": False} if fast else {})), truth=True)
         except util.Slow:
             res.count("skipped_slow")
             return None
